@@ -45,32 +45,35 @@ PROPS["C14"] = {
 
 PROPS["C01"] = {
     "level": "exploration",
-    "technique": "model-based stateful property testing (rapid): operation sequences against a reference model, whole-state comparison after every step",
+    "technique": "model-based stateful property testing (rapid): operation sequences against a reference model, whole-state comparison after every step; plus bounded-exhaustive enumeration of short sequences through the same oracle",
     "level_text": ("generated operation sequences (append batches, replicated message-set appends, truncations at selected offsets, close/reopen with a "
                    "different segment size, HW moves, reader probes) on a real on-disk commit log, compared after EVERY step with an in-memory "
                    "reference model: returned offsets, Newest/Oldest/HW, a full read-back with byte-equal key/value/headers/timestamp/epoch, "
-                   "committed and uncommitted readers from selected starts, long-lived committed readers that stay parked across later appends, rolls and HW moves (created at, below or beyond the HW, also on an empty log) and must continue without a gap or duplicate, an uncommitted reader blocked at the log end while the active segment is rolled without a write (what segment.max.age does) and messages are appended afterwards, segment files and their sizes, epoch-cache invariants"),
+                   "committed and uncommitted readers from selected starts, long-lived committed readers that stay parked across later appends, rolls and HW moves (created at, below or beyond the HW, also on an empty log) and must continue without a gap or duplicate, an uncommitted reader blocked at the log end while the active segment is rolled without a write (what segment.max.age does) and messages are appended afterwards, segment files and their sizes, epoch-cache invariants. Unit C01exh runs EVERY sequence of up to 4 (thorough: 5) operations over an 18-letter alphabet on 150-byte segments (four appends incl. a 3-message batch with an epoch change and a replicated set that straddles a roll; truncation inside a batch, at and around segment bases, at a batch start, at the end; reopen with the same or a 64-byte segment size; HW by one or to the end; committed and uncommitted probes; a parked committed reader and its reads) through the same executor and oracle"),
     "level_note": "sequential histories only (concurrency is C03); trusts the file system; timestamps/epochs non-decreasing and reader starts >= 0 as every caller produces them; truncation never below the HW",
     "rule": ("rapid draws max segment bytes from {1,64,150,300,1024,65536,default} and 1-40 (thorough 1-120) ops: append(1-8 msgs; key nil/empty/short/300B, "
              "value nil/empty/5B-2KiB/70KiB, headers nil/empty/1-3 with empty/short/1100B values, equal or increasing timestamps, epoch bumps), appendset "
              "(1-6 msgs encoded as a follower receives them), truncate(class: any/inside batch/segment base+-1/batch start/beyond end), reopen(optionally new "
              "segment size), sethw, probe(start class, committed or not), newreader/read (parked committed readers; those positioned before a truncation point stay parked across the truncation, the others and all readers at a reopen are dropped), parksplit(uncommitted reader at the newest offset, roll of the active segment, append of 1-3 msgs: the reader must deliver them in order within 20 s). Non-trivial = the case rolled at least one segment AND contains one of: truncate "
              "strictly inside a batch, truncate at a segment base, reopen after a truncate, message-set append that rolled, probe starting at/inside a "
-             "non-first segment. distinct = SHA-1 of the case encoding."),
+             "non-first segment. distinct = SHA-1 of the case encoding. C01exh: 24,700 sequences (quick) / 444,636 (thorough) that start with an append, complete for its alphabet and length bound (coverage.exhaustive_units)."),
     "assumptions": TRUST + ["process keeps running (crashes are C05)", "no compaction/retention in this flavour (C08/C09)"],
     "units": [
         {"name": "C01", "pkg": "server/commitlog", "test": "TestVerifC01",
          "quick": {"shards": 16, "checks": 1500}, "thorough": {"shards": 16, "checks": 12000, "timeout": 3000}},
+        # bounded-exhaustive: every sequence of <= LEN operations over an 18-letter alphabet on 150-byte segments
+        {"name": "C01exh", "pkg": "server/commitlog", "test": "TestVerifC01Exh", "kind": "exhaustive",
+         "quick": {"shards": 16, "params": {"LEN": 4}}, "thorough": {"shards": 16, "params": {"LEN": 5}, "timeout": 3000}},
     ],
 }
 
 PROPS["C09"] = {
     "level": "exploration",
-    "technique": "model-based property testing (rapid): generated segment layouts x limit combinations placed at/around the layout's cumulative sums, closed-form expected cut",
+    "technique": "model-based property testing (rapid): generated segment layouts x limit combinations placed at/around the layout's cumulative sums, closed-form expected cut; plus bounded-exhaustive enumeration of short operation sequences through the same oracle",
     "level_text": ("generated layouts (1-20 segments of 1-9 messages with varying byte sizes and timestamps) and every combination of the bytes/messages/age "
                    "limits with values placed exactly at, one below and one above the layout's suffix sums / segment last-timestamps (plus tiny and huge), 1-6 "
                    "cleans with further appends in between; the expected cut k* = max(k_age,k_msgs,k_bytes) capped at n-1 is computed on the model and the "
-                   "survivors must be exactly segments [k*,n), byte-identical, readable from every start offset"),
+                   "survivors must be exactly segments [k*,n), byte-identical, readable from every start offset. Unit C09exh: a fixed layout of four appends, then EVERY sequence of up to 3 (thorough: 4) letters of a 19-letter alphabet (appends incl. one whose timestamps go back at an epoch bump, reopen, HW move, 13 cleans: byte / message / age limits exactly at, one below and one above a cumulative sum of the layout, an age clean with an append while it runs, all three limits together, the tiny and the all-expired extremes), for 150- and 64-byte segments, through the same executor and oracle"),
     "level_note": "timestamps non-decreasing except at an epoch bump (a new leader whose clock is behind); computeTTL is replaced by a fixed cut-off through the package variable meant for it; unit C09b (-race, both tiers): message-count retention concurrent with an appending goroutine: what is left is a gap-free suffix of what was appended, the newest message included",
     "rule": ("rapid draws max segment bytes from {1,64,150,300,1024}, 1-3 rounds of (0-18 appends of 1-3 messages, optional reopen, optional HW move, 1-2 Clean() calls "
              "whose limits are selectors resolved against the current model layout). Non-trivial = a clean on >=3 segments with >=1 limit active whose expected "
@@ -79,17 +82,20 @@ PROPS["C09"] = {
     "units": [
         {"name": "C09", "pkg": "server/commitlog", "test": "TestVerifC09",
          "quick": {"shards": 16, "checks": 1500}, "thorough": {"shards": 16, "checks": 15000, "timeout": 3000}},
+        # bounded-exhaustive: a fixed 4-append layout, then every sequence of <= LEN letters of a 19-letter alphabet, for 150- and 64-byte segments
+        {"name": "C09exh", "pkg": "server/commitlog", "test": "TestVerifC09Exh", "kind": "exhaustive",
+         "quick": {"shards": 16, "params": {"LEN": 3}}, "thorough": {"shards": 16, "params": {"LEN": 4}, "timeout": 3000}},
         {"name": "C09b", "pkg": "server/commitlog", "test": "TestVerifC09b", "common": {"race": True},
          "quick": {"shards": 8, "checks": 60}, "thorough": {"shards": 16, "checks": 1500, "timeout": 3000}},
     ],
 }
 PROPS["C08"] = {
     "level": "exploration",
-    "technique": "model-based property testing (rapid): key patterns x layouts x HW x workers, Must/May set oracle + reader consistency from every start offset",
+    "technique": "model-based property testing (rapid): key patterns x layouts x HW x workers, Must/May set oracle + reader consistency from every start offset; plus bounded-exhaustive enumeration of short operation sequences through the same oracle",
     "level_text": ("generated key patterns (nil, empty, 4 short keys, a 200-byte key, runs of one key), 2-30 segments, HW anywhere, 1/2/4/10 compaction workers, "
                    "repeated cleans with HW moves and appends in between, optionally with retention limits; oracle: Must (keyless, >=HW, newest segment, latest "
                    "committed per key) is a subset of the survivors, survivors are a subset of the log before, unchanged and ordered; then forward uncommitted, "
-                   "forward committed and reverse committed readers from every start offset return exactly the survivors in range; committed readers that have already delivered part of the log stay parked across the cleans (also cleans that replace the segment they are in, with appends during the clean) and must continue with the next survivor, once"),
+                   "forward committed and reverse committed readers from every start offset return exactly the survivors in range; committed readers that have already delivered part of the log stay parked across the cleans (also cleans that replace the segment they are in, with appends during the clean) and must continue with the next survivor, once. Unit C08exh: three keyed appends, then EVERY sequence of up to 4 (thorough: 5) letters of a 14-letter alphabet (appends with two keys and a keyless message, the empty key in a segment of its own, a run of one key, a keyless message; HW by one or to the end; reopen; compaction with 1 or 4 workers or with a byte limit; a parked committed reader, its reads, a probe) through the same executor and oracle"),
     "level_note": "empty-but-non-nil keys are generated although only the commit-log API can store them; unit C08b (-race, both tiers): Clean() with 1-3 repetitions runs while another goroutine appends and rolls segments; schedule-independent oracle (survivors are original messages in order, everything that had to survive is there, the log stays usable and reopens to the same content)",
     "rule": ("rapid draws max segment bytes from {1,64,150,300,1024}, 1-3 rounds of (appends of 1-4 keyed messages with run-length bias, HW moves, optional reopen, a "
              "compacting Clean() with generated worker count, 0-2 repeat cleans). Non-trivial = a compaction over >=3 segments with the HW strictly inside the log "
@@ -98,6 +104,9 @@ PROPS["C08"] = {
     "units": [
         {"name": "C08", "pkg": "server/commitlog", "test": "TestVerifC08",
          "quick": {"shards": 16, "checks": 1000}, "thorough": {"shards": 16, "checks": 10000, "timeout": 3000}},
+        # bounded-exhaustive: three keyed appends, then every sequence of <= LEN letters of a 14-letter alphabet
+        {"name": "C08exh", "pkg": "server/commitlog", "test": "TestVerifC08Exh", "kind": "exhaustive",
+         "quick": {"shards": 16, "params": {"LEN": 4}}, "thorough": {"shards": 16, "params": {"LEN": 5}, "timeout": 3000}},
         {"name": "C08b", "pkg": "server/commitlog", "test": "TestVerifC08b", "common": {"race": True},
          "quick": {"shards": 8, "checks": 60}, "thorough": {"shards": 16, "checks": 1500, "timeout": 3000}},
     ],
@@ -294,8 +303,8 @@ PROPS["C04"] = {
     "level_text": ("one real partition leader (bare server + NATS, real message loop, commit loop and replicators) with replication factor 1 or 3, min ISR 1-3, batch size 1/4/1024, optional optimistic concurrency control; "
                    "the harness plays the followers (real ReplicationRequest messages carrying their offset) and the controller (ISR shrink/expand applied through Server.apply), and publishes bursts with mixed NONE/LEADER/ALL policies, "
                    "sizes around the replication limit and expected offsets. After every step all acks the model expects must have arrived and every arrived ack is judged: ALL only once every ISR member reported the offset and |ISR|>=min; "
-                   "LEADER once stored; never for NONE; exactly once; right offset and policy; rejected messages nacked with the right error and absent from the log; at quiescence HW == end of log"),
-    "level_note": "followers are simulated by the harness (their claimed offsets are trusted by the leader, as in the protocol); the failed-encryption rejection cannot be provoked; negative expectations (no ack yet) use a 3 ms grace period after all expected acks arrived",
+                   "LEADER once stored; never for NONE; exactly once; right offset and policy; rejected messages (too large, wrong expected offset, failed encryption) nacked with the right error and absent from the log; at quiescence HW == end of log"),
+    "level_note": "followers are simulated by the harness (their claimed offsets are trusted by the leader, as in the protocol); the failed-encryption rejection is provoked by injection: in a quarter of the cases the leader's encryption handler is replaced by a stand-in that stores values as they are and fails for marked values (the real handler fails only when the system random source does), and such a message must be nacked with the ENCRYPTION error, never stored, and leave the offsets of its neighbours in the burst unchanged; negative expectations (no ack yet) use a 3 ms grace period after all expected acks arrived",
     "rule": "rapid draws RF, min ISR, batch size, OCC and 2-18 steps (publish burst of 1-5, report(replica, fraction of the log), shrink, expand). Non-trivial = the ISR changed while an ALL message was pending, or a burst mixed ack policies, or min ISR blocked a commit.",
     "assumptions": TRUST,
     "units": [
